@@ -700,6 +700,22 @@ func (n *Net) deliver(e *Conn) {
 		return
 	}
 	k := avail
+	if p.rclosed {
+		// The receiving end has closed: the bytes are dropped and answered with a reset. What a proxy still writes
+		// to a peer that has gone (which error page, how long) often depends on races inside net/http, so neither a
+		// schedule draw nor the trace may depend on the amount.
+		p.inflight = nil
+		n.deliverLocked(e, nil)
+		if n.R != nil {
+			dir := "c2s"
+			if e.server {
+				dir = "s2c"
+			}
+			n.R.Tracef("net deliver %s %s to an end that has closed", e.id, dir)
+		}
+		n.cond.Broadcast()
+		return
+	}
 	if n.R != nil {
 		switch n.R.Sched.Intn(4) {
 		case 0:
